@@ -448,6 +448,16 @@ func (c *Ctx) ruleClock(rule string) {
 				}
 				return false
 			}
+			// who advances the clock: the routine is called only from control cycles / curve evaluations. A call
+			// from a constructor or from start-up code takes the first stamp long before the first cycle, whose dt
+			// then covers the whole start-up (minutes of fan analysis): the integral starts wound up.
+			allowed := c.Closure(append(append([]*ssa.Function{}, roots...), c.ImplMethods(PkgCurves, "SpeedCurve", "Evaluate")...), false, nil)
+			for _, site := range c.StaticCallers(fn) {
+				if site.Parent() == nil || allowed[site.Parent()] {
+					continue
+				}
+				c.R.Bad(rule, key+"|callers", fk, c.P.Pos(site.Pos()), "the time-stamped loop routine is advanced from "+c.FK(site.Parent())+", which is not part of a control cycle or curve evaluation: the stamp elapsed time is measured against is taken outside regulation, so the first real cycle sees everything since then as one dt (history-dependent wind-up)")
+			}
 			var missed *ssa.Return
 			ir.Search{StopInstr: isRefresh}.Reach([]ir.Point{{Block: fn.Blocks[0], Idx: 0}}, func(ins ssa.Instruction, _ *ssa.BasicBlock) {
 				if rt, ok := ins.(*ssa.Return); ok && missed == nil {
